@@ -27,9 +27,10 @@
 -/
 namespace ZodbModel.Conn
 
-abbrev ObjId := Nat
-abbrev Oid := Nat
-abbrev Tid := Nat
+/-- object identities, oids and tids are natural numbers (notations, so that `omega` sees `Nat`) -/
+scoped notation "ObjId" => Nat
+scoped notation "Oid" => Nat
+scoped notation "Tid" => Nat
 
 /-! ### finite maps keyed by `Nat` (Python dicts), kept sorted by key -/
 
@@ -222,15 +223,14 @@ def markChanged (s : State) (i : ObjId) : State :=
   if !o.jar then s
   else if o.status = .changed then s
   else
-    let s1 :=
-      match o.oid with
-      | some k =>
-        if s.added.has k then s
-        else
-          let s' := join s
-          { s' with registered := s'.registered ++ [i] }
-      | none => s
-    setO s1 i { o with status := .changed }
+    let s1 := setO s i { o with status := .changed }
+    match o.oid with
+    | some k =>
+      if s.added.has k then s1
+      else
+        let s' := join s1
+        { s' with registered := s'.registered ++ [i] }
+    | none => s1
 
 /-! ### disowning, invalidating, aborting -/
 
@@ -291,9 +291,9 @@ def connAbort (s : State) : State :=
   let s := invalidateCreating s s.creating.keys
   tpcCleanup { s with creating := [] }
 
-/-- the `while self._added` loop of `tpc_abort` -/
+/-- the `while self._added` loop of `tpc_abort` (`popitem`, then disown) -/
 def drainAdded (s : State) : State :=
-  let s' := s.added.foldl (fun (s : State) (p : Oid × ObjId) => disown s p.2) s
+  let s' := s.added.foldl (fun (s : State) (p : Oid × ObjId) => disown { s with added := s.added.del p.1 } p.2) s
   { s' with added := [] }
 
 /-- `Connection.tpc_abort` (a `KeyError` — logged and swallowed by `transaction._cleanup` — when
@@ -332,13 +332,13 @@ def afterCompletion (s : State) : State :=
 /-- `ObjectWriter.persistent_id` over the references of the object being pickled: an object
     without oid gets one, joins this connection and is pushed on the writer's stack -/
 def persistentId (acc : State × List ObjId) (r : ObjId) : State × List ObjId :=
-  let (s, pushed) := acc
+  let s := acc.1
   let o := s.objs r
   match o.oid with
-  | some _ => (s, pushed)
+  | some _ => acc
   | none =>
-    let s := setO s r { o with oid := some s.nextOid, jar := true }
-    ({ s with nextOid := s.nextOid + 1 }, pushed ++ [r])
+    let s' := setO s r { o with oid := some s.nextOid, jar := true }
+    ({ s' with nextOid := s.nextOid + 1 }, acc.2 ++ [r])
 
 def serialize (s : State) (refs : List ObjId) : State × List ObjId :=
   refs.foldl persistentId (s, [])
@@ -379,22 +379,23 @@ def storeRec (s : State) (i : ObjId) (k : Oid) (r : Rec) : State × Option Err :
     let s := { s with sp := some (t.store k r), cache := s.cache.set k i }
     (setO s i { s.objs i with status := .uptodate }, none)
   | none =>
-    match storageStore s k r with
-    | (s, some e) => (s, some e)
-    | (s, none) => ({ s with cache := s.cache.set k i }, none)
+    let st := storageStore s k r
+    match st.2 with
+    | some e => (st.1, some e)
+    | none => ({ st.1 with cache := st.1.cache.set k i }, none)
 
 /-- one iteration of the loop of `_store_objects`; also returns the objects pushed on the stack -/
 def storeOne (s : State) (i : ObjId) : (State × Option Err) × List ObjId :=
   match (s.objs i).oid with
   | none => ((s, some .assertion), [])
   | some k =>
-    let s := classify s i k
     -- `writer.serialize(obj)`: `__getstate__` un-ghosts, pickling assigns oids to new references
-    match access s i with
-    | (s, some e) => ((s, some e), [])
-    | (s, none) =>
-      let o := s.objs i
-      let sp := serialize s o.refs
+    let a := access (classify s i k) i
+    match a.2 with
+    | some e => ((a.1, some e), [])
+    | none =>
+      let o := a.1.objs i
+      let sp := serialize a.1 o.refs
       (storeRec sp.1 i k ⟨o.serial, o.val, o.refs⟩, sp.2)
 
 /-- `_store_objects(ObjectWriter(obj))`: drain the writer's stack (head = top).  `fuel` bounds the
@@ -406,11 +407,12 @@ def storeObjects : Nat → State → List ObjId → State × Option Err
     let new := match (s.objs i).oid with
                | some k => isNewObj s (s.objs i) k
                | none => false
-    match storeOne s i with
-    | ((s', none), pushed) => storeObjects fuel s' (pushed.reverse ++ rest)
-    | ((s', some e), pushed) =>
+    let r := storeOne s i
+    match r.1.2 with
+    | none => storeObjects fuel r.1.1 (r.2.reverse ++ rest)
+    | some e =>
       -- instrumentation: the defect situation D1
-      ({ s' with d1 := s'.d1 || new || !(pushed ++ rest).isEmpty }, some e)
+      ({ r.1.1 with d1 := r.1.1.d1 || new || !(r.2 ++ rest).isEmpty }, some e)
 
 /-- number of allocated objects that have no oid yet (for the fuel) -/
 def countNoOid (s : State) (n : Nat) : Nat :=
@@ -425,28 +427,35 @@ def commitLoop (fuel : Nat) : State → List ObjId → State × Option Err
     | none => (s, some .assertion)
     | some k =>
       if s.added.has k || !(s.creating.has k || o.status != .changed) then
-        match storeObjects fuel s [i] with
-        | (s', none) => commitLoop fuel s' rest
-        | (s', some e) => (s', some e)
+        let r := storeObjects fuel s [i]
+        match r.2 with
+        | none => commitLoop fuel r.1 rest
+        | some e => (r.1, some e)
       else commitLoop fuel s rest
 
 /-- `_commit`; `bound` = number of Python objects the program holds -/
 def connCommitPlain (bound : Nat) (s : State) : State × Option Err :=
   commitLoop (bound + 1) s s.registered
 
-/-- `Connection.savepoint` (returns the savepoint's state) -/
+/-- `if self._savepoint_storage is None: … TmpStore(…)`, then `self._creating.clear()` -/
+def ensureTmp (s : State) : State :=
+  match s.sp with
+  | none => { s with sp := some {}, creating := [] }
+  | some _ => { s with creating := [] }
+
+/-- `self._storage.creating.update(self._creating)`, then clear `_creating` and `_registered_objects` -/
+def mergeCreating (s : State) : State :=
+  match s.sp with
+  | some t => { s with sp := some { t with creating := t.creating.update s.creating },
+                       creating := [], registered := [] }
+  | none => { s with creating := [], registered := [] }
+
+/-- `Connection.savepoint` (the savepoint's state is `spState` of the result) -/
 def connSavepoint (bound : Nat) (s : State) : State × Option Err :=
-  let s := match s.sp with
-           | none => { s with sp := some {} }
-           | some _ => s
-  let s := { s with creating := [] }
-  match connCommitPlain bound s with
-  | (s, some e) => (s, some e)
-  | (s, none) =>
-    let s := match s.sp with
-             | some t => { s with sp := some { t with creating := t.creating.update s.creating } }
-             | none => s
-    ({ s with creating := [], registered := [] }, none)
+  let r := connCommitPlain bound (ensureTmp s)
+  match r.2 with
+  | some e => (r.1, some e)
+  | none => (mergeCreating r.1, none)
 
 def spState (s : State) : SpEntry :=
   match s.sp with
@@ -463,9 +472,10 @@ def replay (src : TmpStore) : State → List Oid → State × Option Err
       match src.loadAt k p with
       | none => (s, some .assertion)
       | some r =>
-        match storageStore s k r with
-        | (s, some e) => (s, some e)
-        | (s, none) => replay src s rest
+        let st := storageStore s k r
+        match st.2 with
+        | some e => (st.1, some e)
+        | none => replay src st.1 rest
 
 /-- `_commit_savepoint` -/
 def commitSavepoint (s : State) : State × Option Err :=
@@ -486,9 +496,10 @@ def connTpcBegin (s : State) : State :=
 def connCommit (bound : Nat) (s : State) : State × Option Err :=
   match s.sp with
   | some _ =>
-    match connSavepoint bound s with
-    | (s, some e) => (s, some e)
-    | (s, none) => commitSavepoint s
+    let r := connSavepoint bound s
+    match r.2 with
+    | some e => (r.1, some e)
+    | none => commitSavepoint r.1
   | none => connCommitPlain bound s
 
 /-- body of the loop of `tpc_finish` -/
@@ -532,13 +543,14 @@ def commitJoined (bound : Nat) (s : State) : State × Out :=
     let s := connTpcBegin s
     if s.fail = .afterBegin then (cleanup false s, .failed .injected)
     else
-      match connCommit bound s with
-      | (s, some e) => (cleanup false s, .failed e)
-      | (s, none) =>
-        if s.fail = .afterCommit ∨ s.fail = .vote then (cleanup false s, .failed .injected)
-        else if s.fail = .afterVote then (cleanup true s, .failed .injected)
+      let r := connCommit bound s
+      match r.2 with
+      | some e => (cleanup false r.1, .failed e)
+      | none =>
+        if r.1.fail = .afterCommit ∨ r.1.fail = .vote then (cleanup false r.1, .failed .injected)
+        else if r.1.fail = .afterVote then (cleanup true r.1, .failed .injected)
         else
-          let s := connTpcFinish s
+          let s := connTpcFinish r.1
           (s, .committed s.lastTid (match s.log with | (_, oids) :: _ => oids | [] => []))
 
 /-- does the failing second resource manager raise even when the connection takes no part -/
@@ -552,8 +564,8 @@ def txnCommit (bound : Nat) (s : State) (f : Fail) : State × Out :=
   if s.needsToJoin then
     (afterCompletion s, if f.isRm then .failed .injected else .nothing)
   else
-    let (s, out) := commitJoined bound s
-    (afterCompletion s, out)
+    let r := commitJoined bound s
+    (afterCompletion r.1, r.2)
 
 /-- `transaction.abort()` -/
 def txnAbort (s : State) : State :=
@@ -569,11 +581,12 @@ def txnAbortAfterFailure (joined : Bool) (s : State) : State :=
 def txnSavepoint (bound : Nat) (s : State) : State × Out :=
   if s.needsToJoin then ({ s with sps := s.sps ++ [.abortSp false] }, .ok)
   else
-    match connSavepoint bound s with
-    | (s, some e) =>
+    let r := connSavepoint bound s
+    match r.2 with
+    | some e =>
       -- `_cleanup` + COMMITFAILED; only reachable after a defect (d1 is set)
-      (cleanup false s, .failed e)
-    | (s, none) => ({ s with sps := s.sps ++ [spState s] }, .ok)
+      (cleanup false r.1, .failed e)
+    | none => ({ r.1 with sps := r.1.sps ++ [spState r.1] }, .ok)
 
 /-- `_rollback_savepoint(state)` -/
 def rollbackSavepoint (s : State) (p : Nat) (idx : Map Nat) (cr : Map Bool) : State :=
@@ -623,12 +636,13 @@ deriving DecidableEq, Repr, Inhabited
 def mutate (s : State) (i : ObjId) (f : Obj → Option Obj) : State × Out :=
   if !s.opened && (s.objs i).jar then (s, .err .closed)
   else
-    match access s i with
-    | (s, some e) => (s, .err e)
-    | (s, none) =>
-      match f (s.objs i) with
-      | none => (s, .ok)
-      | some o' => (markChanged (setO s i o') i, .ok)
+    let a := access s i
+    match a.2 with
+    | some e => (a.1, .err e)
+    | none =>
+      match f (a.1.objs i) with
+      | none => (a.1, .ok)
+      | some o' => (markChanged (setO a.1 i o') i, .ok)
 
 def opAdd (s : State) (i : ObjId) : State × Out :=
   if !s.opened then (s, .err .connClosed)
@@ -668,9 +682,10 @@ def opPeek (s : State) (i : ObjId) : Out :=
     (`afterFailure`). -/
 def step (bound : Nat) (s : State) : Op → State × Out
   | .read i =>
-    match access s i with
-    | (s, some e) => (s, .err e)
-    | (s, none) => (s, .value (s.objs i).val (s.objs i).refs)
+    let a := access s i
+    match a.2 with
+    | some e => (a.1, .err e)
+    | none => (a.1, .value (a.1.objs i).val (a.1.objs i).refs)
   | .modify i v => mutate s i fun o => some { o with val := v }
   | .link i j => mutate s i fun o => if o.refs.contains j then none else some { o with refs := o.refs ++ [j] }
   | .unlink i j => mutate s i fun o => if o.refs.contains j then some { o with refs := o.refs.filter (· != j) } else none
@@ -691,9 +706,8 @@ def Out.isFailed : Out → Bool
 /-- a program step as the harness executes it: after a failed commit (or savepoint) it calls
     `transaction.abort()` -/
 def stepH (bound : Nat) (s : State) (op : Op) : State :=
-  let joined := !s.needsToJoin
-  let (s', out) := step bound s op
-  if out.isFailed then txnAbortAfterFailure joined s' else s'
+  let r := step bound s op
+  if r.2.isFailed then txnAbortAfterFailure (!s.needsToJoin) r.1 else r.1
 
 def run (bound : Nat) (s : State) (ops : List Op) : State := ops.foldl (stepH bound) s
 
